@@ -532,6 +532,17 @@ func (st *State) assumeAllocated(term string, t types.Type) {
 	case *types.Interface:
 		// payload may be a pointer
 		st.assume(fmt.Sprintf("(<= %s %s)", ifVal(term), st.heap("$alloc", "Int")))
+	case *types.Struct:
+		// a struct value read from the pre-existing world (a by-value parameter, a stored struct): its reference fields too
+		su := t.Underlying().(*types.Struct)
+		name := reg.structSort(su, typeHint(t))
+		for i := 0; i < su.NumFields(); i++ {
+			ft := su.Field(i).Type()
+			switch ft.Underlying().(type) {
+			case *types.Pointer, *types.Map, *types.Chan, *types.Slice, *types.Interface, *types.Struct:
+				st.assumeAllocated(fmt.Sprintf("(%s_f%d %s)", name, i, term), ft)
+			}
+		}
 	}
 }
 
